@@ -3,7 +3,7 @@
 //! the written package is sent to it; it answers with the list of violations and the decoded view.
 use crate::common::*;
 use crate::wb;
-use umya_spreadsheet::structs::Spreadsheet;
+use umya_spreadsheet::structs::{Cell, CellRawValue, Spreadsheet, Style};
 
 fn corpus_dir() -> String {
     format!("{}/tests/test_files", std::env::var("UMYA_REPO").unwrap_or("/repo".into()))
@@ -32,6 +32,44 @@ pub fn book_of(a: &[&str]) -> Result<Spreadsheet, String> {
         }
         _ => Err("bad case".into()),
     }
+}
+
+/// the in-memory workbook as cells of the writer model (`Umya/Model/CellXml.lean`), in the format of C01's
+/// dump: per sheet (`|`) the cells in emission order (`;`): `col,row,kind,value,formula,styled,runs`
+fn model_dump(book: &Spreadsheet) -> String {
+    let cell = |c: &Cell| -> String {
+        let (kind, runs) = match c.get_raw_value() {
+            CellRawValue::Empty => ("z", "~".to_string()),
+            CellRawValue::String(_) => ("s", "~".to_string()),
+            CellRawValue::RichText(rt) => {
+                let els = rt.get_rich_text_elements();
+                let r = if els.is_empty() {
+                    "-".to_string()
+                } else {
+                    els.iter().map(|e| format!("{}:{}", if e.get_font().is_some() { "1" } else { "~" }, hex(e.get_text()))).collect::<Vec<_>>().join("+")
+                };
+                ("r", r)
+            }
+            CellRawValue::Numeric(_) => ("n", "~".to_string()),
+            CellRawValue::Bool(_) => ("b", "~".to_string()),
+            CellRawValue::Error(_) => ("e", "~".to_string()),
+            CellRawValue::Lazy(_) => ("l", "~".to_string()),
+        };
+        format!(
+            "{},{},{},{},{},{},{}",
+            c.get_coordinate().get_col_num(),
+            c.get_coordinate().get_row_num(),
+            kind,
+            hex(&c.get_value()),
+            if c.is_formula() { hex(c.get_formula()) } else { "~".into() },
+            if c.get_style() != &Style::default() { 1 } else { 0 },
+            runs
+        )
+    };
+    (0..book.get_sheet_count())
+        .map(|i| book.get_sheet(&i).unwrap().get_cell_collection_sorted().iter().map(|c| cell(c)).collect::<Vec<_>>().join(";"))
+        .collect::<Vec<_>>()
+        .join("|")
 }
 
 pub fn run_case(out: &mut Out, header: &str) {
@@ -77,6 +115,19 @@ pub fn run_case(out: &mut Out, header: &str) {
     // the implementation's claim: no violations, and the file means what the workbook holds
     let reply = format!("errs=0;;view={}", v);
     out.end(&line, &reply, true);
+    // the cell bridge (theorems C02_cell_decodes / C02_book_cells_decode): the facts a non-unescaping scanner
+    // reads from the real parts, and — for generated workbooks — the in-memory cells for the writer model;
+    // the claim is that the driver finds the rendering of the facts equal to what its XML reader parsed
+    match guard(|| crate::c01::package_facts(&bytes, book.get_sheet_count())) {
+        Ok(Ok(facts)) => {
+            let model = if a[2] == "gen" { guard(|| model_dump(&book)).unwrap_or("~".into()) } else { "~".to_string() };
+            out.count(if model == "~" { "bridge.facts-only" } else { "bridge.with-model" });
+            let line = format!("c02 bridge {} model={}", facts, model);
+            out.begin(&line);
+            out.end(&line, "ok", true);
+        }
+        _ => out.count("bridge.skipped-scanner"),
+    }
 }
 
 pub fn gen(tier: Tier, seed: u64) -> Vec<String> {
